@@ -814,8 +814,9 @@ def _check_error(s, st, ev, cur, desc, vio):
         tv = cur['tv'] if cur['tv'] is not None else s.cfg['pool_timeouts']
         if s.cfg['runtime'] or not any(x == 'pos' for x in tv) and not any(x == 'zero' for x in tv[1:]):
             vio('C10', 'NoRuntimeSpecified returned although a runtime is configured / no timeout is in play')
-        if any(e[0] == 'destroy' for e in ev):
-            V = dict(s.vio('C10', 'a get() that fails with NoRuntimeSpecified destroyed an idle object', st)); vio('C10', V['what'])
+        failed = any(e[0] == 'env' and e[-1] in ('err', 'panic', 'expired') or (e[0] == 'env' and 'expired' in e) for e in ev)
+        if any(e[0] == 'destroy' for e in ev) and not failed:
+            vio('C10', 'a get() that fails with NoRuntimeSpecified destroyed an idle object whose recycling had not failed')
 
 
 def _check_abandon(s, st, cur, res, vio):
